@@ -1,10 +1,16 @@
 package main
 
 import (
+	"go.uber.org/zap/verif/props/c03"
+	"go.uber.org/zap/verif/props/c13"
+	"go.uber.org/zap/verif/props/c17"
 	"go.uber.org/zap/verif/props/encjson"
 )
 
 func init() {
 	register("C01", "exploration", encjson.Run01, nil)
+	register("C03", "exploration", c03.Run, nil)
+	register("C17", "exploration", c17.Run, nil)
+	register("C13", "fault_enumeration", c13.Run, c13.Child)
 	register("C02", "exploration", encjson.Run02, nil)
 }
